@@ -47,12 +47,12 @@ def cases(tier):
             for cols in itertools.product((dims if d < 3 or q else [1, 2]) if d < 5 else [1], repeat=d):
                 for r in rank_vectors(d, rk):
                     for c in ((False, True, 'tail', 'head') if d > 1 else (False, True)):
-                        for fam in ('gauss', 'lowrank', 'int', 'intdtype', 'zerocore', 'tinycore', 'samecore'):
+                        for fam in ('gauss', 'lowrank', 'int', 'intdtype', 'zerocore', 'tinycore', 'samecore', 'tinyscale'):
                             if d >= 4 and fam not in ('gauss', 'lowrank', 'samecore'):
                                 continue
                             if fam == 'samecore' and not (d >= 2 and len(set(rows)) == 1 and len(set(cols)) == 1 and max(r) == 1 and c in (False, True)):
                                 continue
-                            if fam in ('intdtype', 'zerocore', 'tinycore', 'samecore') and c not in (False, True):
+                            if fam in ('intdtype', 'zerocore', 'tinycore', 'samecore', 'tinyscale') and c not in (False, True):
                                 continue
                             for lay in (('C', 'V') if fam in ('gauss', 'intdtype') else ('C',)):
                                 yield {'rows': list(rows), 'cols': list(cols), 'r': r, 'c': c, 'fam': fam, 'lay': lay}
@@ -76,6 +76,9 @@ def build(case, rng):
     elif fam == 'samecore':          # homogeneous product state written as [core] * d: ONE array object is every core
         c_ = rand_cores(rng, case['rows'][:1], case['cols'][:1], [1, 1], case['c'], 'gauss')[0]
         cores = [c_] * len(case['rows'])
+    elif fam == 'tinyscale':         # a train of overall scale 1e-18 (physical units): every entry, real and imaginary part, is tiny in absolute terms
+        cores = rand_cores(rng, case['rows'], case['cols'], case['r'], case['c'], 'gauss')
+        cores[0] = cores[0] * 1e-18
     elif fam == 'tinycore':          # one core of tiny magnitude: squares underflow, the tensor itself is representable
         cores = rand_cores(rng, case['rows'], case['cols'], case['r'], case['c'], 'gauss')
         cores[0] = cores[0] * 1e-170
@@ -95,6 +98,7 @@ def run_case(case, seed):
     from vt.core import dense_cores as _dc
     want = _dc([np.asarray(c_) for c_ in cores_in])            # keeps open boundary ranks
     sc = max(1.0, np.linalg.norm(want.ravel()))
+    unit = 1e-18 if case['fam'] == 'tinyscale' else 1.0          # values are compared relative to the tensor's own scale
 
     class _Cores(list):
         pass
@@ -106,7 +110,7 @@ def run_case(case, seed):
         if not r.true(key + ':meta', mp is None, mp):
             return False
         r.true(key + ':dims', list(T.row_dims) == case['rows'] and list(T.col_dims) == case['cols'])
-        r.close(key + ':value', _dc(T.cores), want, TOL)
+        r.close(key + ':value', _dc(T.cores) / unit, want / unit, TOL)
         r.true(key + ':rank-growth', all(a <= b for a, b in zip(T.ranks, before['ranks'])),
                'ranks %s from %s' % (T.ranks, before['ranks']))
         for i in range(d):
@@ -127,6 +131,15 @@ def run_case(case, seed):
             if common(key, T, ret, before, set(range(lo, hi + 2)) if hi >= lo else set()):
                 for i in range(lo, hi + 1):
                     r.true(key + ':isometry', is_left_orth(T.cores[i]), 'core %d not left-orthonormal' % i)
+    # the progress flag only switches the progress bar on
+    T = tt_from(cores0); before = snap(T)
+    with r.op('ortho_left:progress:call'):
+        from vt.core import quiet as _quiet
+        with _quiet():
+            ret = T.ortho_left(progress=True)
+        if common('ortho_left:progress', T, ret, before, set(range(d))):
+            for i in range(d - 1):
+                r.true('ortho_left:progress:isometry', is_left_orth(T.cores[i]), 'core %d not left-orthonormal' % i)
     pairs = [(None, None)] + [(s, e) for s in range(d - 1, 0, -1) for e in range(s, 0, -1)]
     pairs += [(np.int32(s), np.int64(e)) for s, e in pairs[1:]]        # NumPy integers pass ortho_right's own validation
     pairs += [(0, 1)]                                                  # explicit start 0 with the default end 1: an empty sweep, nothing may change
